@@ -69,10 +69,11 @@ fn one(src: &str, stream: &str) -> Option<Case> {
     if nums.iter().any(|v| { let t = v.to_string(); t.len() >= 12 }) { c.tags.push("long-number-literal".into()); }
     if nums.iter().any(|v| *v != 0.0 && v.abs() < 1e-8) { c.tags.push("tiny-number-literal".into()); }
     if nums.iter().any(|v| v.abs() >= 1e9) { c.tags.push("large-number-literal".into()); }
+    c.tags.push(if syntax::in_fragment(&pm, false) { "format-fragment:in".into() } else { "format-fragment:out".into() });
     c.req = format!("format {}", before);
     c.imp = format!("(ok {})", sx::q(&f1));
     c.show = src.to_string();
-    c.tags = vec![stream.into()];
+    c.tags.insert(0, stream.into());
     // --- implementation-side facts handed to the oracle
     let f1c = f1.clone();
     let re = std::panic::catch_unwind(move || RoocParser::new(f1c).parse());
@@ -156,19 +157,48 @@ fn number_literals(pm: &rooc::pre_model::PreModel, out: &mut Vec<f64>) {
     }
 }
 
-/// the same program through the program-level parser model (fragment without iterations): tree or rejection
+/// does the `(ok (premodel …))` answer carry a primitive the model does not display (`(other …)`, an array other than
+/// an integer / empty one)?
+fn model_declines_tree(imp: &str) -> bool {
+    if imp.contains("(other ") { return true; }
+    let mut rest = imp;
+    while let Some(k) = rest.find("(prim \"") {
+        let body = &rest[k + 7..];
+        let end = body.find('"').unwrap_or(body.len());
+        let d = &body[..end];
+        let inner = d.trim_start_matches('[').trim_end_matches(']');
+        let ok = d.starts_with('[') && d.ends_with(']') && !inner.contains('[')
+            && (inner.is_empty() || inner.split(", ").all(|x| !x.is_empty() && x.chars().all(|c| c.is_ascii_digit()))
+                || inner.split(", ").all(|x| x == "true" || x == "false"));
+        if !ok { return true; }
+        rest = &body[end..];
+    }
+    false
+}
+
+/// the same program through the program-level parser model: tree (with its fragment verdict) or the class of the rejection
 fn parse_case(src: &str, stream: &str) -> Option<Case> {
-    if !syntax::in_program_fragment(src) { return None; }
+    if !syntax::lex_supported(src) || syntax::has_glued_keyword(src) { return None; }
     let s = src.to_string();
+    let mut c = Case::default();
     let imp = match std::panic::catch_unwind(move || RoocParser::new(s).parse()) {
-        Ok(Ok(pm)) => format!("(ok {})", syntax::pre_model_lex(&pm, src)),
-        Ok(Err(_)) => "(err reject)".to_string(),
+        Ok(Ok(pm)) => {
+            let inside = syntax::in_fragment(&pm, true);
+            c.tags.push(if inside { "fragment:in".into() } else { "fragment:out".into() });
+            format!("(ok {} {})", syntax::pre_model_lex(&pm, src), if inside { "in-fragment" } else { "out-of-fragment" })
+        }
+        Ok(Err(e)) => { let k = syntax::error_class(&e); c.tags.push(format!("program-rejected:{}", k)); format!("(err reject {})", k) }
         Err(_) => "(err panic)".to_string(),
     };
-    let mut c = Case::default();
+    if imp.starts_with("(ok") && model_declines_tree(&imp) { return None; }
     c.req = format!("parse-program {}", sx::q(src));
-    c.tags = vec!["parse-program".into(), format!("parse-program:{}", stream), if imp.starts_with("(ok") { "program-accepted".into() } else { "program-rejected".into() }];
-    c.nontrivial = imp.contains("(bin ") || imp.contains("(un ");
+    c.tags.extend(["parse-program".to_string(), format!("parse-program:{}", stream), if imp.starts_with("(ok") { "program-accepted".into() } else { "program-rejected".into() }]);
+    for (k, t) in [("(cvar ", "pp:compound-var"), ("(access ", "pp:array-access"), ("(block ", "pp:block-fn"), ("(scoped ", "pp:scoped-fn"), ("(it ", "pp:iteration"),
+                   ("(prim ", "pp:array"), ("(str ", "pp:string"), ("(cv ", "pp:compound-decl"), ("(tuple ", "pp:tuple-iteration"), ("(intrange ", "pp:integer-range"),
+                   ("(nnreal ", "pp:nonneg-real-bounds"), ("(real ", "pp:real-bounds"), ("(c (", "pp:named-constraint"), ("(let ", "pp:constants")] {
+        if imp.contains(k) { c.tags.push(t.into()); }
+    }
+    c.nontrivial = imp.contains("(bin ") || imp.contains("(un ") || imp.contains("(scoped ") || imp.contains("(block ");
     c.imp = imp;
     c.show = format!("parse-program\n{}", src);
     Some(c)
@@ -241,7 +271,7 @@ pub fn generate(seed: u64, n: usize, thorough: bool, corpus: Option<&str>) -> Ve
     let mut push = |src: String, stream: &str, cases: &mut Vec<Case>| {
         if !seen.insert(src.clone()) { return; }
         // the program-level parser model: the source, its formatted text, and a mutation of either
-        if stream != "repo-programs" && stream != "templates" && stream != "templates-graph" {
+        {
             if let Some(c) = parse_case(&src, stream) { cases.push(c) }
             let s2 = src.clone();
             if let Ok(Ok(f1)) = std::panic::catch_unwind(move || RoocParser::new(s2).format()) {
